@@ -133,6 +133,7 @@ func (w *world) commit(kind, at string, seq int) {
 	case "rewrite-same":
 		aw.Key, aw.Val = "same", "same-value"
 	}
+	w.s.Note(w.a.Name, "APP BEGIN "+kind+" at "+at)
 	id, err := lmdbx.Update(w.a.Env, func(txn *lmdb.Txn) error {
 		if native {
 			aw.TS = uint64(time.Now().UnixNano())
@@ -474,6 +475,30 @@ func (w *world) CheckCausality() {
 }
 
 func CheckCausalityOf(evs []sched.Event, name string, res *runner.Result, wit map[string]any) {
+	// application commits as intervals [begin, end] of event indexes: the harness notes
+	// "APP BEGIN" before the transaction and "APP COMMIT" after it, so a commit that the
+	// loop noticed before the harness goroutine got to write its second note still counts
+	type iv struct{ b, e int }
+	var commits []iv
+	open := -1
+	for i, e := range evs {
+		if e.Inst != name || e.Point != "harness" {
+			continue
+		}
+		if strings.HasPrefix(e.Note, "APP BEGIN") {
+			open = i
+		} else if strings.HasPrefix(e.Note, "APP COMMIT") {
+			b := open
+			if b < 0 {
+				b = i
+			}
+			commits = append(commits, iv{b, i})
+			open = -1
+		}
+	}
+	if open >= 0 {
+		commits = append(commits, iv{open, len(evs)})
+	}
 	prevBefore := -1 // index of send.before_txn of the previous upload
 	curBefore := -1
 	curAfter := -1
@@ -492,8 +517,8 @@ func CheckCausalityOf(evs []sched.Event, name string, res *runner.Result, wit ma
 			res.Count("uploads_observed", 1)
 			if uploads > 1 {
 				explained := false
-				for j := prevBefore; j >= 0 && j <= curAfter; j++ {
-					if evs[j].Inst == name && evs[j].Point == "harness" && strings.HasPrefix(evs[j].Note, "APP COMMIT") {
+				for _, c := range commits {
+					if c.b <= curAfter && c.e >= prevBefore {
 						explained = true
 					}
 				}
